@@ -726,9 +726,11 @@ func assign(n *node) {
 			l := n.level
 			ind := n.findex
 			n.exec = func(f *frame) bltn {
+				// Evaluate the source first: it may refer to the variable being replaced.
+				v := s(f)
 				data := getFrame(f, l).data
 				data[ind] = reflect.New(data[ind].Type()).Elem()
-				data[ind].Set(s(f))
+				data[ind].Set(v)
 				return next
 			}
 		default:
@@ -759,16 +761,29 @@ func assign(n *node) {
 	}
 
 	if n.kind == defineStmt {
-		// Handle a multiple var declararation / assign. It cannot be a swap.
+		// Handle a multiple var declararation / assign. As for an assignment, all
+		// the right hand side values are evaluated before any variable is set: a
+		// variable redeclared on the left may be used on the right.
 		n.exec = func(f *frame) bltn {
+			t := make([]reflect.Value, len(svalue))
 			for i, s := range svalue {
+				if n.child[i].ident == "_" {
+					continue
+				}
+				t[i] = reflect.New(types[i]).Elem()
+				t[i].Set(s(f))
+			}
+			for i := range svalue {
 				if n.child[i].ident == "_" {
 					continue
 				}
 				data := getFrame(f, level[i]).data
 				j := index[i]
-				data[j] = reflect.New(data[j].Type()).Elem()
-				data[j].Set(s(f))
+				if !n.child[i].redeclared {
+					// A new variable: preserve the previous one, possibly in use by a closure.
+					data[j] = reflect.New(data[j].Type()).Elem()
+				}
+				data[j].Set(t[i])
 			}
 			return next
 		}
